@@ -1,11 +1,12 @@
 """C05 — ephemeral listeners never hold up or alter the synchronised stream."""
-from .. import protocol, sendfeed, pipeline, pairfeed, neteph
+from .. import protocol, sendfeed, pipeline, pairfeed, neteph, joineph
 from ..core import Violation
 import copy, logging
 
 ID = 'C05'
 MODULES = ['OFModel.Zmq.Receiver', 'OFModel.Zmq.Sender', 'OFModel.Zmq.Pair', 'OFModel.Zmq.PairEph', 'OFModel.Zmq.Net', 'OFModel.Zmq.NetEph', 'OFModel.Gen.Facts']
-PROP_FILES = ['C05', 'C05Pair', 'C05Net', 'C05NetTree', 'C05NetHasten', 'C05NetSyncQ']
+PROP_FILES = ['C05', 'C05Pair', 'C05Net', 'C05NetTree', 'C05NetHasten', 'C05NetSyncQ',
+              'JoinEphGen', 'JoinEphSync', 'JoinEphInv', 'JoinEphRun', 'JoinEphCall', 'C05JoinEph']
 RULE = ('sender: paired runs of the real ZMQSender on the same request feed with and without the requests of its ephemeral (? / ??) clients - the ids published and '
         'the set of calls that publish must agree up to stuttering (an ephemeral request may only make a publish happen one call earlier); `??` clients never '
         'produce a request.  receiver: adversarial feeds with ephemeral sources; every ephemeral contribution complete for its subscription, ids non-decreasing per source. '
@@ -17,6 +18,11 @@ RULE = ('sender: paired runs of the real ZMQSender on the same request feed with
         'OF.Net.Eph.estep (driver op nete.run); oracles net-chain-composition / net-tree-composition (the sets handed to every process() are a prefix of the composition of the upstream process '
         'functions, listeners or not) and listener-altered-stream (paired run of the same schedule without the listener events: the handed sequences agree as far as both go); at every send that finds listener requests queued the model '
         'instance of C05_net_listeners_only_hasten is evaluated (publishes without the listener requests => publishes with them; its side conditions hold). '
+        'join with ephemeral side sources (OFProps/C05JoinEph.lean): the REAL ZMQReceiver with at least one synchronised and one ephemeral source on well-formed feeds, deliveries (also mid-block) and recv(None, 0) calls '
+        'interleaved arbitrarily, replayed call by call through OF.Recv.call0 with and without the ephemeral deliveries; oracles = instances of the theorems on the real class: eph-source-altered-sync (paired run with every '
+        'ephemeral delivery removed: the returned (id, synchronised part) sequences are prefix-related - C05_join_eph_same_as_without / _sync_parts_exact), eph-holdup-at-boundary (every synchronised source has delivered its complete '
+        'block of the newest id and no ephemeral source has a subscribed topic of a partly delivered block in flight, late heartbeat of an already returned block included => the call returns - C05_join_eph_no_holdup), '
+        'eph-block-torn / eph-block-twice (every ephemeral contribution is one whole block, block ids strictly increase - C05_join_eph_blocks_complete). '
         'non-trivial = at least one publish / one set with an ephemeral contribution / a pair schedule with ephemeral requests / a network trial with an effective listener request and a set at a sink')
 ASSUMPTIONS = ['libzmq replaced by the in-process fake', 'network + listeners: the network model of C01/C03 (immediate loss-free FIFO delivery, no HWM, synchronised all-topics subscriptions between the nodes, no restarts for the composition statement); listeners are outside the model - only their requests exist (over-approximation: ANY request with eph != 0 and a listener client id "E..."), what is published to them is not state; a listener at a node without synchronised consumer is not modelled', 'closed pair + listener: immediate loss-free delivery, no HWM (a backlog at a stalled consumer is unbounded in the model); the constant 12-event recovery bound of C06 does NOT hold with a listener (kernel-evaluated counter-example in C05Pair.lean), the bound #queued requests + 9 events / 5 polls / one time-out does', 'paired-run comparison is an oracle on the implementation (exploration); the universally quantified statements are the Lean theorems']
 TRUSTED = ['transcriptions OFModel/Zmq/Receiver.lean and Sender.lean, compared call-by-call with the real classes']
@@ -172,3 +178,4 @@ def run(ctx):
     ctx.result.extra['paired_oracle'] = dict(STATS)
     if not ctx.replay: pipeline.campaign_eph(ctx, 200 if ctx.thorough else 25)
     neteph.campaign(ctx, 1500 if ctx.thorough else (400 if ctx.escalate else 120))
+    joineph.campaign(ctx, 1500 if ctx.thorough else (400 if ctx.escalate else 150))
